@@ -11,11 +11,12 @@ EXTENDS Integers, Sequences, FiniteSets, TLC
 CONSTANTS Docs,        \* document variants (concretized by the harness)
           Repeats      \* how often one creation is repeated
 
-VARIABLES created, calls, probe
-vars == <<created, calls, probe>>
+VARIABLES created, calls, probe, processed
+vars == <<created, calls, probe, processed>>
 
 Probe(d, ns, enc, sfx, form) == [doc |-> d, ns |-> ns, enc |-> enc, sfx |-> sfx, form |-> form]
 NoProbe == Probe(0, "same", "canonical", "matching", "long")
+NotProcessed == [doc |-> 0, shape |-> "none"]
 
 \* ---- creation is deterministic ---------------------------------------------------------------
 \* arguments (document d, key pair k) are numbered (d - 1) * 2 + k; Docs = 1..N
@@ -29,12 +30,12 @@ Undefined == <<"none">>
 
 \* (the order in which distinct arguments are used does not matter: one canonical order)
 Create(a) ==
-    /\ probe = NoProbe
+    /\ probe = NoProbe /\ processed = NotProcessed
     /\ calls[a] < Repeats
     /\ \A b \in Args : b < a => calls[b] = Repeats
     /\ created' = [created EXCEPT ![a] = DIDOf(a)]
     /\ calls' = [calls EXCEPT ![a] = @ + 1]
-    /\ UNCHANGED probe
+    /\ UNCHANGED <<probe, processed>>
 
 \* ---- resolution ------------------------------------------------------------------------------
 \* how the namespace part of the presented DID relates to the handler's namespace "did:ion"
@@ -58,13 +59,30 @@ Resolves(p) ==
 \* resolution does not depend on what has been created (the handler is stateless)
 Resolve(p) ==
     /\ \A a \in Args : calls[a] = 0
-    /\ probe = NoProbe
+    /\ probe = NoProbe /\ processed = NotProcessed
     /\ probe' = p
-    /\ UNCHANGED <<created, calls>>
+    /\ UNCHANGED <<created, calls, processed>>
+
+\* ---- a create request handed to the handler (ProcessOperation) ----------------------------------
+\* the request of document d as the client builds it, re-spelled, or carrying members the request model does not
+\* know (a parser may or may not accept those - C07's business; what it accepts must come back as a DID that resolves)
+RequestShapes == {"as_built", "whitespace", "member_order", "further_member", "further_delta_member", "further_suffix_member",
+                  "member_case", "escaped_member_name"}
+\* the same request in another spelling is the same request: it is accepted and answered with the same DID
+SameRequest(shape) == shape \in {"as_built", "whitespace", "member_order"}
+\* the DID that comes back is, by definition, ns : suffix of the request : canonical state of the request
+ReturnedDID(pr) == Probe(pr.doc, "same", "canonical", "matching", "long")
+
+Process(d, shape) ==
+    /\ \A a \in Args : calls[a] = 0
+    /\ probe = NoProbe /\ processed = NotProcessed
+    /\ processed' = [doc |-> d, shape |-> shape]
+    /\ UNCHANGED <<created, calls, probe>>
 
 Init == /\ created = [a \in Args |-> Undefined]
         /\ calls = [a \in Args |-> 0]
         /\ probe = NoProbe
+        /\ processed = NotProcessed
 
 \* a probe deviates from a resolvable DID in at most two places
 Deviations(p) == (IF p.ns = "same" THEN 0 ELSE 1) + (IF p.enc = "canonical" THEN 0 ELSE 1)
@@ -75,11 +93,14 @@ Next ==
     \/ \E d \in Docs, ns \in NsRels, enc \in Encodings, sfx \in SuffixRels, form \in Forms :
           /\ Deviations(Probe(d, ns, enc, sfx, form)) <= 2
           /\ Resolve(Probe(d, ns, enc, sfx, form))
+    \/ \E d \in Docs, shape \in RequestShapes : Process(d, shape)
 
 \* determinism: once a DID has been handed out for some arguments it never changes
 Deterministic == [][\A a \in Args : created[a] # Undefined => created'[a] = created[a]]_vars
 \* distinct arguments, distinct DIDs
 Injective == \A a, b \in Args : created[a] # Undefined /\ created[a] = created[b] => a = b
+\* what the handler hands out for a create request it accepts resolves
+ProcessedResolves == processed # NotProcessed => Resolves(ReturnedDID(processed))
 \* only one shape resolves
 OnlyOwnNamespace == Resolves(probe) => probe.ns = "same"
 =============================================================================
